@@ -66,6 +66,12 @@ CHECKS = {
    ref='4 (C16)',
    note='trusted: simulated pubsub transport (copies per subscriber, FIFO per link); the proxy service process itself is not run; Session objects are built without their constructor',
    technique='deterministic simulation: in-memory pubsub network, delivery-count model oracle'),
+
+ 'C09': dict(
+   text='full agent world on Slurm node names with a seeded launcher configuration (FORK, MPIRUN +MPT/RSH/CCMRUN/DPLACE, MPIEXEC +MPT with rank file / host file / PALS / -f modes, SRUN old/new, APRUN, IBRUN, SSH, RSH, CCMRUN; >42-host thresholds): the real scheduler chooses slots, the real executor asks the real find_launcher / get_launch_cmds; a spy records command + referenced files; oracle = reference parser (process count, node multiset or node set, rank-file / cpu-bind pins) vs. the slots, command of a fresh launcher instance (history independence), refusal of multi-rank tasks by single-process methods. The history dimension (order in which tasks reach the one launcher object) is decided by the simulated schedule; the input dimension is seeded generation. Sampling, not proof.',
+   ref='4 (C09)',
+   note='trusted: reference command parsers (written from the launchers documented syntax), simulator fakes; launcher binaries are not executed; JSRUN/PRTE not driven',
+   technique='deterministic simulation: randomised launcher configuration in the full agent world, reference-parser oracle + fresh-instance differential'),
 }
 
 NA = [
